@@ -274,6 +274,9 @@ def sx_in(a, b):
             cands = [k for k in b if isinstance(k, _b.bytes) and len(k) == len(a)]
             return sym_or(*[key_eq(a, k) for k in cands]) if cands else False
         if isinstance(a, SymInt):
+            cands = [k for k in b if isinstance(k, _b.int)]
+            if len(cands) <= 64:
+                return sym_or(*[mk_bool(a.t == _b.int(k)) for k in cands]) if cands else False
             a = eng().concretize(a.t, limit=512)
         return a in b
     if isinstance(b, (_b.tuple, _b.list)):
